@@ -29,6 +29,12 @@ def build_demo(wt, demo, exe):
         cmd = ["g++", "-O1", "-I" + os.path.join(wt, "include"), "-I" + ard, "-I" + os.path.join(wt, "src")] + srcs + [os.path.join(wt, "src", "libskinny.a"), "-o", exe, "-lpthread"]
     else:
         import re
+        txt = open(demo).read()
+        if re.search(r"/tmp/mut\d?-C\d\d", txt):
+            # hard-coded worktree path (e.g. the directory of the example tools): point it at ours
+            d2 = os.path.join(tempfile.mkdtemp(prefix="demo-"), os.path.basename(demo))
+            open(d2, "w").write(re.sub(r"/tmp/mut\d?-C\d\d", wt, txt))
+            demo = d2
         wraps = sorted(set(re.findall(r"__wrap_([A-Za-z_0-9]+)", open(demo).read())))
         wl = ["-Wl," + ",".join("--wrap=" + w for w in wraps)] if wraps else []
         hook = ["-DRWEATHER_SKINNY_C_VERIF"] if "_skinny_verif_backend_cap" in open(demo).read() else []
